@@ -246,6 +246,11 @@ def Ser.feed (r : Ser) : List (Option Chunk) → Ser × List Bool
     let res := Ser.feed r' cs
     (res.1, b :: res.2)
 
+/-- all primitive operations performed while the messages are fed, in order -/
+def Ser.feedOps (r : Ser) : List (Option Chunk) → List FsOp
+  | [] => []
+  | c :: cs => r.acceptOps c ++ Ser.feedOps (r.setTransmissionData c).1 cs
+
 -- ------------------------------------------------------------------------------------------------
 -- one sender, one receiver, one connection: the system `interrupted_safe` is about
 -- ------------------------------------------------------------------------------------------------
